@@ -38,6 +38,7 @@ def run(rep: core.Report):
     rep.rule("R08e", "Gonze-Lee short-range force constants: the dynamical matrices, the dipole-dipole terms subtracted from them and the inverse transform all use the same representatives of the commensurate points (flow-sensitive labels on the point arrays)", 1)
     _r08e(rep)
     _r08f(rep)
+    _r08g(rep)
     tu = cast.load(DYN)
     ex = celem.ElemExec(tu, where=DYN)
     i, j, n = sp.symbols("i j num_patom", integer=True)
@@ -446,6 +447,40 @@ def run(rep: core.Report):
     _run_main(rep)
 
 
+def _r08g(rep):
+    """The q = 0 on-site term of the Gonze-Lee method is Hermitian in its Cartesian indices."""
+    rep.rule("R08g", "Gonze-Lee q = 0 term: dd_q0[i][a][b] = 1/2 (sum_j T[i,a,j,b] + conj(sum_j T[i,b,j,a])) with T the Born-dressed reciprocal sum at q = 0 (closed form of all 9 x 2 cells by element-wise symbolic execution of the loops after multiply_borns): the 3x3 block of every atom is Hermitian, so what is subtracted when the short-range force constants are built (and symmetrised there) is what is added back at every q", 18)
+    fn = tu_fn = None
+    tu = cast.load(DYN)
+    fn = tu.functions.get("dym_get_recip_dipole_dipole_q0")
+    if fn is None:
+        raise AnalysisError("anchor vanished: dym_get_recip_dipole_dipole_q0")
+    stmts = cast.kids(cast.body(fn))
+    calls = [k for k, st in enumerate(stmts) if st.get("kind") == "CallExpr" and cast.callee_name(st) == "multiply_borns"]
+    if len(calls) != 1:
+        raise AnalysisError("R08g: dym_get_recip_dipole_dipole_q0 no longer dresses the reciprocal sum by one call of multiply_borns")
+    src_arr = cast.ref_name(cast.call_args(stmts[calls[0]])[0])
+    tail = [st for st in stmts[calls[0] + 1:] if st.get("kind") == "ForStmt"]
+    n = sp.Symbol("num_patom", integer=True, positive=True)
+    ex = celem.ElemExec(tu, where=DYN)
+    st = celem.State(ex, "dym_get_recip_dipole_dipole_q0", {"num_patom": n}, {"dd_q0": "dd_q0", src_arr: "T"}, 0)
+    st.block(tail)
+    i, j = sp.Symbol("i", integer=True), sp.Symbol("jj", integer=True)
+    T = sp.Function("T")
+
+    def ssum(a, b, c):
+        return sp.Sum(T(i * n * 9 + a * n * 3 + j * 3 + b, c), (j, 0, n - 1))
+
+    for a in range(3):
+        for b in range(3):
+            for c, sign in ((0, 1), (1, -1)):
+                got = st.cell("dd_q0", i * 9 + a * 3 + b, c)
+                want = (ssum(a, b, c) + sign * ssum(b, a, c)) / 2
+                ok = celem.same(got, want)
+                rep.instance("R08g", DYN, "dym_get_recip_dipole_dipole_q0", f"dd_q0[i][{a}][{b}] ({'real' if c == 0 else 'imaginary'} part) = 1/2 (sum_j T[i,{a},j,{b}] {'+' if sign > 0 else '-'} sum_j T[i,{b},j,{a}])", bool(ok[0]) if isinstance(ok, tuple) else bool(ok),
+                             f"the cell is {core.norm(str(got), 200)}: the on-site term is not symmetrised in its Cartesian indices (the partner of T[i,a,j,b] is T[i,b,j,a], not its conjugate T[j,b,i,a]); for sites whose symmetry allows an antisymmetric part the term added back at every q differs from the symmetrised one that was subtracted", line=tu.line(fn), nontrivial=(c == 0))
+
+
 def _r08f(rep):
     """The damping of the Gonze-Lee reciprocal sum is derived from the radius the G list is built with."""
     rep.rule("R08f", "Gonze-Lee parameters: the default Lambda makes the Gaussian factor 1e-10 at the edge of the list of reciprocal vectors, i.e. it is computed from the same cut-off radius that is handed to _get_G_list (value provenance through locals and attributes); computed from another radius (the default one while the user's smaller G_cutoff builds the list) the truncated sum is not periodic over G and the dipole term subtracted at one representative of a commensurate point differs from the one added at another", 1)
@@ -489,6 +524,7 @@ def selftest():
     b = lambda name, file, old, new, rule, expect="", **kw: V.append(dict(name=name, kind="break", file=file, old=old, new=new, rule=rule, expect=expect, **kw))
     n = lambda name, file, old, new, **kw: V.append(dict(name=name, kind="neutral", file=file, old=old, new=new, **kw))
     V.append(dict(name="default Lambda from the default radius", kind="break", rule="R08f", expect="_set_nac_params", file=PYDM, old="            exp_cutoff = 1e-10\n            GeG = self._G_cutoff**2 * np.trace(self._dielectric) / 3", new="            exp_cutoff = 1e-10\n            G_cutoff = (3 * self._num_G_points / (4 * np.pi) / self._pcell.volume) ** (1.0 / 3)\n            GeG = G_cutoff**2 * np.trace(self._dielectric) / 3"))
+    b("q = 0 term: imaginary parts added instead of subtracted in the Cartesian symmetrisation", DYN, "                dd_q0[adrs][1] -= dd_q0[adrsT][1];", "                dd_q0[adrs][1] += dd_q0[adrsT][1];", "R08g", "dym_get_recip_dipole_dipole_q0")
     b("zone-centre factor normalised by |n| instead of n.eps.n", DYN, "                nac_factor / n / get_dielectric_part(q_dir_cart, dielectric),", "                nac_factor / n / sqrt(get_dielectric_part(q_dir_cart, dielectric)),", "R08a", "degree 0")
     b("charge sum contracts the other Born axis", DYN, "                q_born[i][j] += q_cart[k] * born[i][k][j];", "                q_born[i][j] += q_cart[k] * born[i][j][k];", "R08a", "closed form")
     b("wang addend depends on the image", DYN, "                           charge_sum[i * num_patom + j][l][m]);", "                           charge_sum[i * num_patom + j][l][m] / (1 + k % 2));", "R08c", "get_dm")
